@@ -85,7 +85,7 @@ def run(ctx):
     ctx.touch(cl)
     ren = cl.calls(r'^std::fs::rename$')
     reads = cl.calls(r'local_authority::read_authority_lock_record$')
-    pid_param = [i for i in range(1, cl.argc + 1) if cl.lname(i) == 'expected_pid']
+    pid_param = [i for i in range(1, cl.argc + 1) if cl.lname(i) == 'expected_pid'] or [i for i in range(1, cl.argc + 1) if re.search(r'^(u32|u64|i32|core::option::Option<u32>)$', cl.lty(i))]
     if not ren or not pid_param:
         raise CheckError('C18.2: cleanup has no rename / expected_pid')
     lock_ren = [r for r in ren if any(x[0] == 'call' and x[1].endswith('authority_lock_path') for x in sources(cl, r.args[0]))]
